@@ -212,7 +212,11 @@ def emit_tu(sj, header='<hfsm2/machine.hpp>', main='vh_main.hpp', extra_defs='')
     pay = {'int': 'int', 'pod24': 'vh::Pod24', 'big64': 'vh::Big64', 'tiny': 'vh::Tiny'}[cfg.get('payload', 'int')]
     decls = '\n'.join('struct N%d;' % i for i in named)
     inj = set(sj.get('inj', []))
-    defs = '\n'.join('struct N%d : vh::Node<%d, %d, %s> {};' % (i, i, len(nodes[i]['children']), ('FSM::StateT<vh::VInj<%d>>' % i) if i in inj else 'FSM::State') for i in named)
+    mask = {int(k): v for k, v in sj.get('mask', {}).items()}
+    def body(i):
+        # methods listed in the mask are NOT overridden: the using-declaration re-exposes the library's empty default
+        return ' '.join('using FSM::State::%s;' % m for m in mask.get(i, []))
+    defs = '\n'.join('struct N%d : vh::Node<%d, %d, %s> { %s };' % (i, i, len(nodes[i]['children']), ('FSM::StateT<vh::VInj<%d>>' % i) if i in inj else 'FSM::State', body(i)) for i in named)
     fill = '\n'.join('\tp.expectThis[%d] = &m.template access<N%d>();' % (i, i) for i in named)
     ids = '\n'.join('\tout[%d] = (int)FSM::stateId<N%d>();' % (i, i) for i in named)
     rids = '\n'.join('\tout[%d] = (int)FSM::regionId<N%d>();' % (nodes[i]['region'], i) for i in named if nodes[i]['kind'] != 'L')
@@ -269,6 +273,20 @@ static void vhRegionIds(int* out) {{
 }}
 #include "{main}"
 '''
+
+MASKABLE = ['preUpdate', 'update', 'postUpdate', 'preReact', 'react', 'postReact', 'query']
+def add_masks(sj, seed):
+    """C16: some states leave some methods un-overridden (interface logging must then stay silent about them)"""
+    r = random.Random(zlib.crc32(sj['desc'].encode()) ^ seed)
+    inj = set(sj.get('inj', []))
+    mask = {}
+    for n in sj['nodes']:
+        i = n['id']
+        if (n['kind'] != 'L' and n['headless']) or i in inj or r.random() < 0.5: continue
+        ms = [m for m in MASKABLE if r.random() < 0.4]
+        if ms: mask[str(i)] = ms
+    sj['mask'] = mask
+    return sj
 
 def shape_id(sj):
     return hashlib.sha1(json.dumps([sj['desc'], sj['cfg']], sort_keys=True).encode()).hexdigest()[:10]
